@@ -562,8 +562,20 @@ class State:
         self.trace.append(ev)
 
 
+_HQ_PROBE = None
+
+
 def _has_quantifier(f, cap=4000):
-    """Does the z3 formula contain a quantifier? (bounded search; a huge formula counts as 'yes')"""
+    """Does the z3 formula contain a quantifier?  Asked of z3 itself (probe `has-quantifiers`: a cached flag of the
+    AST, constant time in practice); the Python walk below is the fallback for a non-boolean term
+    (bounded search; there a huge formula counts as 'yes')."""
+    global _HQ_PROBE
+    if z3.is_expr(f) and z3.is_bool(f):
+        if _HQ_PROBE is None:
+            _HQ_PROBE = z3.Probe("has-quantifiers")
+        g = z3.Goal()
+        g.add(f)
+        return _HQ_PROBE(g) != 0.0
     todo, seen = [f], set()
     while todo:
         e = todo.pop()
